@@ -1,4 +1,4 @@
-import TrustVerif.Lemmas.C19Fs
+import TrustVerif.Lemmas.C19Mk
 
 /-!
 # C19 — web IDE file API stays inside the project and never loses a concurrent edit
@@ -36,6 +36,45 @@ example :
     normalizeParts "...".toList = .error .forbidden ∧
     normalizeParts " . ".toList = .error .invalidInput ∧
     normalizeParts "".toList = .error .invalidInput := by
+  decide
+
+/-! ## Confinement -/
+
+/-- **Confinement** ("never read, create, modify or remove anything outside the active project
+directory, and never touch hidden entries"): for every (well-formed) file system — symbolic links
+to directories and files anywhere, pointing anywhere, dangling or looping —, every project root,
+every session table, every operation of the API and every argument string, each effect the
+operation has on the file system (file content read, directory listed, file written, directory
+created, entry removed, entry moved: `Effect`, recorded by physical location, i.e. after all
+symbolic links were resolved) lies at `canonical_root ++ rel` where no component of `rel` starts
+with `.` (`Under`).  For removals and moves the location is the root of the affected subtree
+(hidden descendants of a visible directory go with it).  Metadata look-ups made by
+`canonicalize`/`exists` while *checking* a path are not effects. -/
+theorem c19_confined (w : World) (hwf : WF w.fs) (op : Op) :
+    ∀ e ∈ (step w op).effects, ∀ q ∈ e.paths,
+      ∃ rel, q = canonRoot w.fs w.root ++ rel ∧ ∀ c ∈ rel, isHiddenName c = false :=
+  fun e he q hq => step_confined w hwf op e he q hq
+
+/-- Non-vacuity of `c19_confined`, and the witnesses of the repaired defects as refusals: in the
+project `p` of `exWorld` (link `dout → o` to an outside directory, file link `f.st → o/s.st`,
+dangling link `d.st → o/new.st`, link `vis → p/.hid`, hidden file `p/.hid/s.st`) an editor's
+operations through any of the links are refused with no effect, a search for the outside / hidden
+text reads only the ordinary file, and an ordinary nested create has exactly two confined effects. -/
+example :
+    wfCheck exWorld.fs = true ∧
+    refused exWorld (.open 0 "f.st".toList) = true ∧
+    refused exWorld (.apply 0 "f.st".toList 1 "y".toList true) = true ∧
+    refused exWorld (.create 0 "d.st".toList false none true) = true ∧
+    refused exWorld (.open 0 "dout/s.st".toList) = true ∧
+    refused exWorld (.create 0 "dout/n.st".toList false none true) = true ∧
+    refused exWorld (.open 0 "vis/s.st".toList) = true ∧
+    refused exWorld (.delete 0 "vis/s.st".toList true) = true ∧
+    refused exWorld (.rename 0 "m.st".toList "dout/m.st".toList true) = true ∧
+    (step exWorld (.listSources 0)).effects = [.list ["p".toList]] ∧
+    (step exWorld (.search 0 "zz".toList 50)).effects =
+      [.list ["p".toList], .read ["p".toList, "m.st".toList]] ∧
+    (step exWorld (.create 0 "a/b.st".toList false none true)).effects =
+      [.mkdir ["p".toList, "a".toList], .write ["p".toList, "a".toList, "b.st".toList]] := by
   decide
 
 /-! ## Gates before effects -/
